@@ -28,3 +28,83 @@ Theorem C17_foreign_never_named : forall s,
   filename_to_position s = None -> forall n, n <= U64_MAX -> s <> filename n.
 Proof. exact parse_none_not_filename. Qed.
 Print Assumptions C17_foreign_never_named.
+
+(* ---- effect-level theorems (EffectsProofs.v) ---- *)
+From MRL Require Import Bytes Params Names NamesProofs Frame Record Mem Rolling Log Hist EffectsProofs.
+
+(* every event a call adds to the I/O trace names a file of the form wal-<20 digits> *)
+Theorem C17_step_events_wal_named :
+    forall (P : params) (st : state) (o : op) (tick : bool),
+    Forall wal_named (c_ev (w_ctx (s_wr st))) ->
+    Forall wal_named (c_ev (w_ctx (s_wr (fst (step P st o tick))))).
+Proof. exact step_events_wal_named. Qed.
+Print Assumptions C17_step_events_wal_named.
+
+(* same for open (all outcomes) *)
+Theorem C17_open_events_wal_named :
+    forall (P : params) (fs : fsT) (plan : option fplan) (pol : policy) (hint : list bytes),
+    Forall wal_named (c_ev (open_ctx (open P fs plan pol hint))).
+Proof. exact open_events_wal_named. Qed.
+Print Assumptions C17_open_events_wal_named.
+
+(* an entry whose name is not of that form is unchanged (kind and content) by every call *)
+Theorem C17_step_foreign_untouched :
+    forall (P : params) (st : state) (o : op) (tick : bool) (s : bytes),
+    (forall n : N, s <> filename n) ->
+    fs_get (c_fs (w_ctx (s_wr (fst (step P st o tick))))) s = fs_get (c_fs (w_ctx (s_wr st))) s.
+Proof. exact step_foreign_untouched. Qed.
+Print Assumptions C17_step_foreign_untouched.
+
+(* by drop *)
+Theorem C17_drop_foreign_untouched :
+    forall (st : state) (s : bytes),
+    (forall n : N, s <> filename n) -> fs_get (c_fs (drop_log st)) s = fs_get (c_fs (w_ctx (s_wr st))) s.
+Proof. exact drop_foreign_untouched. Qed.
+Print Assumptions C17_drop_foreign_untouched.
+
+(* by open *)
+Theorem C17_open_foreign_untouched :
+    forall (P : params) (fs : fsT) (plan : option fplan) (pol : policy) (hint : list bytes) (s : bytes),
+    (forall n : N, s <> filename n) -> fs_get (c_fs (open_ctx (open P fs plan pol hint))) s = fs_get fs s.
+Proof. exact open_foreign_untouched. Qed.
+Print Assumptions C17_open_foreign_untouched.
+
+(* by any history *)
+Theorem C17_run_foreign_untouched :
+    forall (P : params) (h : list (op * bool)) (st : state) (s : bytes),
+    (forall n : N, s <> filename n) ->
+    fs_get (c_fs (w_ctx (s_wr (fst (run P st h))))) s = fs_get (c_fs (w_ctx (s_wr st))) s.
+Proof. exact run_foreign_untouched. Qed.
+Print Assumptions C17_run_foreign_untouched.
+
+(* only regular files whose name parses are listed as WAL files *)
+Theorem C17_listing_sound :
+    forall (fs : fsT) (n : N),
+    In n (list_wal_numbers fs) -> n <= U64_MAX /\ (exists b : bytes, In (filename n, FFile b) fs).
+Proof. exact list_wal_numbers_sound_exact. Qed.
+Print Assumptions C17_listing_sound.
+
+(* ordered by number, gaps allowed *)
+Theorem C17_listing_sorted :
+    forall fs : fsT, Sorted.StronglySorted N.lt (list_wal_numbers fs).
+Proof. exact list_wal_numbers_sorted. Qed.
+Print Assumptions C17_listing_sorted.
+
+(* names of another length / prefix / with a non-digit are never names the library forms *)
+Theorem C17_bad_shape_foreign :
+    forall s : list byte,
+    lenN s <> 24 \/ takeN 4 s <> wal_prefix \/ forallb is_digit (dropN 4 s) = false ->
+    forall n : N, s <> filename n.
+Proof. exact bad_shape_foreign. Qed.
+Print Assumptions C17_bad_shape_foreign.
+
+(* names that do not parse (including 20 digits above u64::MAX) are untouched as long as file numbers stay below 2^64 *)
+Theorem C17_unparsed_untouched :
+    forall (P : params) (st : state) (o : op) (tick : bool) (evs : list event) (s : bytes),
+    c_ev (w_ctx (s_wr (fst (step P st o tick)))) = evs ++ c_ev (w_ctx (s_wr st)) ->
+    Forall wal_named_u64 evs ->
+    filename_to_position s = None ->
+    fs_get (c_fs (w_ctx (s_wr (fst (step P st o tick))))) s = fs_get (c_fs (w_ctx (s_wr st))) s.
+Proof. exact step_unparsed_untouched. Qed.
+Print Assumptions C17_unparsed_untouched.
+
